@@ -14,7 +14,13 @@ def validate_encoded(string):
       "{} is not a valid string field\n".format(repr(string))+
       "(it contains newlines/tabs and/or non-printable characters)")
 
-validate_decoded = validate_encoded
+def validate_decoded(string):
+  if not isinstance(string, str):
+    raise gfapy.TypeError(
+      "the class {} is incompatible with the datatype\n"
+      .format(string.__class__.__name__)+
+      "(accepted classes: str)")
+  return validate_encoded(string)
 
 def unsafe_encode(obj):
   return str(obj)
